@@ -73,9 +73,27 @@ def ensure_libs():
         sh([sys.executable, src])
 
 
-def spec_digest(extra=()):
+def module_closure(root):
+    """the spec modules (files under /verif/spec) a root module depends on through EXTENDS/INSTANCE"""
+    seen, todo = [], [root]
+    while todo:
+        m = todo.pop()
+        p = os.path.join(SPEC, m + ".tla")
+        if m in seen or not os.path.exists(p):
+            continue
+        seen.append(m)
+        with open(p) as f:
+            text = f.read()
+        for mm in re.finditer(r"^\s*EXTENDS\s+(.*)$", text, re.M):
+            todo += [x.strip() for x in mm.group(1).split(",")]
+        for mm in re.finditer(r"INSTANCE\s+(\w+)", text):
+            todo.append(mm.group(1))
+    return sorted(seen)
+
+
+def spec_digest(root, extra=()):
     h = hashlib.sha256()
-    for p in sorted(glob.glob(os.path.join(SPEC, "*.tla"))) + sorted(extra):
+    for p in [os.path.join(SPEC, m + ".tla") for m in module_closure(root)] + sorted(extra):
         h.update(os.path.basename(p).encode())
         with open(p, "rb") as f:
             h.update(f.read())
@@ -90,7 +108,7 @@ def tlc_cached(name, module, cfg, workers=12, timeout=3600, simulate=None, tlc_s
     """Runs TLC on spec/<module>.tla with spec/<cfg> and caches its stdout (gz) keyed by the
     content of every spec file + cfg + mode.  Returns (path, stats)."""
     cfgp = os.path.join(SPEC, cfg)
-    h = spec_digest([cfgp])
+    h = spec_digest(module, [cfgp])
     h.update(repr((module, simulate, tlc_seed, sorted((extra_env or {}).items()))).encode())
     key = h.hexdigest()[:24]
     d = os.path.join(CACHE, f"{name}-{key}")
